@@ -420,3 +420,395 @@ Proof.
   - exists t1, false. split; [reflexivity|]. split; [exact Hwf|]. split; [exact Hbx|]. split; [exact Hby|].
     split; [intros _; exact Hadd | discriminate].
 Qed.
+
+(* ------------------------------------------------------------------------------------------ *)
+(* a fresh tree                                                                                 *)
+(* ------------------------------------------------------------------------------------------ *)
+Lemma regions_new : forall n bx by_, regions n (new_tree n bx by_) = [].
+Proof. intros [|k] bx by_; reflexivity. Qed.
+
+Lemma cnt_new : forall n bx by_ x y p, cnt n (new_tree n bx by_) x y p = 0%nat.
+Proof. intros. unfold cnt. rewrite regions_new. reflexivity. Qed.
+
+Lemma wf_new : forall n bx by_, base_ok n bx by_ -> wf n (new_tree n bx by_).
+Proof.
+  intros n bx by_ Hb.
+  assert (Hnode : forall K (s : K), wf_node n (mkNode bx by_ (repeat 0 (Z.to_nat n_cores)) s)).
+  { intros K s. split; [exact Hb|]. split; [reflexivity|].
+    apply Forall_forall. intros m Hm. apply repeat_spec in Hm. subst m. lia. }
+  destruct n as [|k].
+  - apply Hnode.
+  - split; [apply Hnode|]. split; [reflexivity|].
+    intros j c Hj Hc.
+    assert (E : child k (new_tree (S k) bx by_) j = None) by (unfold child; apply znth_repeat).
+    rewrite E in Hc. discriminate.
+Qed.
+
+(* ------------------------------------------------------------------------------------------ *)
+(* a node whose array and whose child i are replaced                                            *)
+(* ------------------------------------------------------------------------------------------ *)
+Lemma child_upd : forall k (t : tree (S k)) sel' i (c' : tree k) j,
+  length (t_subs t : list (option (tree k))) = 16%nat -> 0 <= i < 16 -> 0 <= j < 16 ->
+  child k (mkNode (t_bx t) (t_by t) sel' (zupd i (Some c') (t_subs t : list (option (tree k))))) j
+  = if j =? i then Some c' else child k t j.
+Proof.
+  intros k t sel' i c' j Hlen Hi Hj. unfold child. simpl t_subs.
+  destruct (Z.eqb_spec j i) as [-> | Hne].
+  - apply znth_zupd_eq.
+    change (0 <= i < Z.of_nat (length (t_subs t : list (option (tree k))))). rewrite Hlen. lia.
+  - apply znth_zupd_neq; lia.
+Qed.
+
+Lemma node_upd : forall k (t : tree (S k)) sel' i (c' : tree k), (S k <= 3)%nat ->
+  wf (S k) t -> 0 <= i < 16 -> wf k c' ->
+  t_bx c' = cbx k (t_bx t) i -> t_by c' = cby k (t_by t) i ->
+  length sel' = 18%nat -> Forall (fun m => 0 <= m < 65536) sel' ->
+  let t2 : tree (S k) := mkNode (t_bx t) (t_by t) sel' (zupd i (Some c') (t_subs t : list (option (tree k)))) in
+  wf (S k) t2 /\
+  forall x y p, cnt (S k) t2 x y p
+    = if inb (S k) t x y
+      then (loc (S k) sel' x y p
+            + (if (subi (S k) x y =? i)%Z then cnt k c' x y p else sub_cnt k t (subi (S k) x y) x y p))%nat
+      else 0%nat.
+Proof.
+  intros k t sel' i c' Hk Hwf Hi Hwc Hcx Hcy Hl' Hs' t2.
+  destruct Hwf as [[Hb [Hl Hs]] [Hlen Hch]].
+  assert (Hwf2 : wf (S k) t2).
+  { split; [split; [exact Hb | split; assumption]|]. split.
+    - unfold t2. simpl t_subs. rewrite zupd_length. exact Hlen.
+    - intros j c Hj Hc. unfold t2 in Hc. rewrite child_upd in Hc by assumption.
+      destruct (Z.eqb_spec j i) as [-> | Hne].
+      + inversion Hc. subst c. auto.
+      + apply Hch; assumption. }
+  split; [exact Hwf2|]. intros x y p. rewrite cnt_S by assumption.
+  change (inb (S k) t2 x y) with (inb (S k) t x y).
+  destruct (inb (S k) t x y); [|reflexivity]. f_equal.
+  unfold sub_cnt, t2. rewrite child_upd by (try assumption; apply subi_range).
+  destruct (subi (S k) x y =? i); reflexivity.
+Qed.
+
+(* ------------------------------------------------------------------------------------------ *)
+(* add_core                                                                                     *)
+(* ------------------------------------------------------------------------------------------ *)
+Lemma add_core_O_eq : forall (t : tree O) x y p,
+  add_core O t x y p =
+  let level := level_of O in
+  if add_core_out_of_range x y p (t_bx t) (t_by t) (tree_scale level) then Failed 0
+  else if Z.of_nat (length (t_sel t)) <=? p then OtherError
+  else
+    let sub := subregion_index x y (tree_shift level) in
+    let t1 := set_sel t (zupd p (add_core_select (znth p (t_sel t) 0) sub) (t_sel t)) in
+    Ok (finish level t1 p).
+Proof. reflexivity. Qed.
+
+Lemma add_core_S_eq : forall k (t : tree (S k)) x y p,
+  add_core (S k) t x y p =
+  let level := level_of (S k) in
+  let scale := tree_scale level in
+  if add_core_out_of_range x y p (t_bx t) (t_by t) scale then Failed 0
+  else if Z.of_nat (length (t_sel t)) <=? p then OtherError
+  else
+    let sub := subregion_index x y (tree_shift level) in
+    bind (if add_core_not_selected (znth p (t_sel t) 0) sub then
+            let c0 : tree k :=
+              match child k t sub with
+              | Some c => c
+              | None => new_tree k (t_bx t + (scale / 4) * (sub mod 4))
+                                   (t_by t + (scale / 4) * (sub / 4))
+              end in
+            bind (add_core k c0 x y p) (fun r =>
+              let t1 : tree (S k) := set_subs t (zupd sub (Some (fst r)) (t_subs t : list (option (tree k)))) in
+              Ok (if snd r
+                  then set_sel t1 (zupd p (add_core_select (znth p (t_sel t1) 0) sub) (t_sel t1))
+                  else t1))
+          else Ok t)
+         (fun t2 => Ok (finish level t2 p)).
+Proof. reflexivity. Qed.
+
+Lemma core_eqb_refl : forall x y p, core_eqb (x, y, p) (x, y, p) = true.
+Proof. intros. apply core_eqb_eq. reflexivity. Qed.
+
+Lemma core_eqb_p : forall x' y' p' x y p, p' <> p -> core_eqb (x', y', p') (x, y, p) = false.
+Proof.
+  intros. destruct (core_eqb _ _) eqn:E; [|reflexivity]. apply core_eqb_eq in E. inversion E. contradiction.
+Qed.
+
+Theorem add_core_spec : forall n, (n <= 3)%nat -> forall (t : tree n) x y p,
+  wf n t -> le1 n t -> inb n t x y = true -> 0 <= p < 18 ->
+  exists t' full, add_core n t x y p = Ok (t', full) /\ add_post n t x y p t' full.
+Proof.
+  induction n as [|k IH]; intros Hn t x y p Hwf Hle Hin Hp.
+  - (* level 3 *)
+    pose proof Hwf as [Hb [Hl Hs]].
+    destruct (blk_bounds _ _ _ _ _ Hb Hin) as [Hx Hy].
+    rewrite add_core_O_eq. cbv zeta.
+    rewrite out_of_range_blk by exact Hn. unfold inb in Hin. rewrite Hin.
+    replace (0 <=? p) with true by (symmetry; apply Z.leb_le; lia).
+    replace (p <? 18) with true by (symmetry; apply Z.ltb_lt; lia). simpl negb. cbv iota.
+    rewrite Hl. replace (Z.of_nat 18 <=? p) with false by (symmetry; apply Z.leb_gt; lia).
+    rewrite sub_index_subi by assumption.
+    set (i := subi O x y). pose proof (subi_range O x y) as Hi. fold i in Hi.
+    set (v := znth p (t_sel t) 0).
+    assert (Hv : 0 <= v < 65536).
+    { pose proof (znth_In _ (t_sel t) p 0 ltac:(lia)) as H. rewrite Forall_forall in Hs. apply Hs. exact H. }
+    set (t1 := set_sel t (zupd p (add_core_select v i) (t_sel t))).
+    assert (Hwf1 : wf O t1).
+    { apply (wf_set_sel O); [exact Hwf | rewrite zupd_length; exact Hl |].
+      apply Forall_zupd; [exact Hs | apply select_range; assumption]. }
+    assert (Hadd : Add1 O t t1 x y p).
+    { intros x' y' p'. rewrite !cnt_O by assumption.
+      change (inb O t1 x' y') with (inb O t x' y'). unfold t1. simpl t_sel.
+      destruct (Z.eq_dec p' p) as [-> | Hne].
+      - destruct (inb O t x' y') eqn:Hin'.
+        + rewrite loc_upd_same by assumption. rewrite select_bit by lia.
+          rewrite loc_bit by exact Hp. fold v.
+          destruct (core_eqb (x', y', p) (x, y, p)) eqn:He.
+          * apply core_eqb_eq in He. inversion He. subst x' y'. fold i. rewrite Z.eqb_refl, orb_true_r. reflexivity.
+          * replace (i =? subi O x' y') with false; [rewrite orb_false_r; reflexivity|].
+            symmetry. apply Z.eqb_neq. intro E.
+            destruct (subi_0_inj _ _ x y x' y' Hb Hin Hin' (eq_sym E)) as [-> ->].
+            rewrite core_eqb_refl in He. discriminate.
+        + destruct (core_eqb (x', y', p) (x, y, p)) eqn:He; [|reflexivity].
+          apply core_eqb_eq in He. inversion He. subst x' y'. unfold inb in Hin'. congruence.
+      - rewrite loc_upd_other by lia. rewrite core_eqb_p by exact Hne. reflexivity. }
+    destruct (finish_after_add O t t1 x y p Hn Hwf1 eq_refl eq_refl Hle Hadd Hp) as [t' [full [Hf Hpost]]].
+    exists t', full. rewrite Hf. split; [reflexivity | exact Hpost].
+  - (* level < 3 *)
+    pose proof Hwf as [[Hb [Hl Hs]] [Hlen Hch]].
+    destruct (blk_bounds _ _ _ _ _ Hb Hin) as [Hx Hy].
+    rewrite add_core_S_eq. cbv zeta.
+    rewrite out_of_range_blk by exact Hn. pose proof Hin as Hin0. unfold inb in Hin0. rewrite Hin0.
+    replace (0 <=? p) with true by (symmetry; apply Z.leb_le; lia).
+    replace (p <? 18) with true by (symmetry; apply Z.ltb_lt; lia). simpl negb. cbv iota.
+    rewrite Hl. replace (Z.of_nat 18 <=? p) with false by (symmetry; apply Z.leb_gt; lia).
+    rewrite sub_index_subi by assumption.
+    set (i := subi (S k) x y). pose proof (subi_range (S k) x y) as Hi. fold i in Hi.
+    set (v := znth p (t_sel t) 0).
+    assert (Hv : 0 <= v < 65536).
+    { pose proof (znth_In _ (t_sel t) p 0 ltac:(lia)) as H. rewrite Forall_forall in Hs. apply Hs. exact H. }
+    rewrite not_selected_bit by lia.
+    assert (Hcnt : forall x' y' p', cnt (S k) t x' y' p'
+              = if inb (S k) t x' y' then (loc (S k) (t_sel t) x' y' p' + sub_cnt k t (subi (S k) x' y') x' y' p')%nat else 0%nat).
+    { intros. apply cnt_S; assumption. }
+    (* the node reached after the (possible) recursive call *)
+    assert (Hmid : exists t2 : tree (S k),
+      (if negb (Z.testbit v i)
+       then bind (add_core k match child k t i with
+                             | Some c => c
+                             | None => new_tree k (t_bx t + tree_scale (level_of (S k)) / 4 * (i mod 4))
+                                                  (t_by t + tree_scale (level_of (S k)) / 4 * (i / 4))
+                             end x y p)
+                 (fun r => Ok (if snd r
+                               then set_sel (set_subs t (zupd i (Some (fst r)) (t_subs t : list (option (tree k)))))
+                                            (zupd p (add_core_select (znth p (t_sel (set_subs t (zupd i (Some (fst r)) (t_subs t : list (option (tree k)))))) 0) i)
+                                                  (t_sel (set_subs t (zupd i (Some (fst r)) (t_subs t : list (option (tree k)))))))
+                               else set_subs t (zupd i (Some (fst r)) (t_subs t : list (option (tree k))))))
+       else Ok t) = Ok t2
+      /\ wf (S k) t2 /\ t_bx t2 = t_bx t /\ t_by t2 = t_by t /\ Add1 (S k) t t2 x y p).
+    { destruct (Z.testbit v i) eqn:Hbit; simpl negb; cbv iota.
+      - (* already selected for the whole sub-block: nothing to do *)
+        exists t. split; [reflexivity|]. split; [exact Hwf|]. split; [reflexivity|]. split; [reflexivity|].
+        intros x' y' p'. destruct (core_eqb (x', y', p') (x, y, p)) eqn:He; [|reflexivity].
+        apply core_eqb_eq in He. inversion He. subst x' y' p'.
+        pose proof (Hle x y p) as H1. rewrite Hcnt in H1 |- *. rewrite Hin in *.
+        rewrite loc_bit in * by exact Hp. fold i v in H1 |- *. rewrite Hbit in *. simpl b2n in *. lia.
+      - (* recurse into child i *)
+        set (c0 := match child k t i with
+                   | Some c => c
+                   | None => new_tree k (t_bx t + tree_scale (level_of (S k)) / 4 * (i mod 4))
+                                        (t_by t + tree_scale (level_of (S k)) / 4 * (i / 4))
+                   end).
+        assert (Hscale : tree_scale (level_of (S k)) / 4 = side (S k)).
+        { rewrite tree_scale_side by exact Hn. rewrite Z.mul_comm. apply Z.div_mul. lia. }
+        assert (Hc0 : wf k c0 /\ t_bx c0 = cbx k (t_bx t) i /\ t_by c0 = cby k (t_by t) i /\
+                      forall x' y' p', cnt k c0 x' y' p' = sub_cnt k t i x' y' p').
+        { unfold c0, sub_cnt. destruct (child k t i) as [c|] eqn:Hc.
+          - destruct (Hch i c Hi Hc) as [H1 [H2 H3]]. auto.
+          - rewrite Hscale. split; [apply wf_new; apply child_base_ok; assumption|].
+            split; [reflexivity|]. split; [reflexivity|]. intros. apply cnt_new. }
+        destruct Hc0 as [Hwc0 [Hc0x [Hc0y Hc0cnt]]].
+        assert (Hin_c0 : forall x' y', inb k c0 x' y' = true -> inb (S k) t x' y' = true /\ subi (S k) x' y' = i).
+        { intros x' y' H. unfold inb in H. rewrite Hc0x, Hc0y in H.
+          apply (child_blk_in k _ _ i x' y' Hn Hb Hi H). }
+        assert (Hle0 : le1 k c0).
+        { intros x' y' p'. destruct (inb k c0 x' y') eqn:Hi0.
+          - destruct (Hin_c0 x' y' Hi0) as [Hi1 Hi2].
+            pose proof (Hle x' y' p') as H1. rewrite Hcnt, Hi1, Hi2 in H1. rewrite Hc0cnt. lia.
+          - rewrite cnt_outside by (try assumption; lia). lia. }
+        assert (Hin0' : inb k c0 x y = true).
+        { unfold inb. rewrite Hc0x, Hc0y. apply child_blk_of; assumption. }
+        destruct (IH ltac:(lia) c0 x y p Hwc0 Hle0 Hin0' Hp) as [c' [fullc [Hrec [Hwc' [Hcx' [Hcy' [Hf Ht]]]]]]].
+        rewrite Hrec. simpl bind. simpl fst. simpl snd.
+        rewrite Hc0x in Hcx'. rewrite Hc0y in Hcy'.
+        destruct fullc.
+        + (* the child reports that p is now wanted on all of its chips *)
+          destruct (Ht eq_refl) as [_ [Hc'cnt Hall]].
+          destruct (node_upd k t (zupd p (add_core_select v i) (t_sel t)) i c' Hn Hwf Hi Hwc' Hcx' Hcy'
+                      ltac:(rewrite zupd_length; exact Hl)
+                      ltac:(apply Forall_zupd; [exact Hs | apply select_range; assumption])) as [Hwf2 Hcnt2].
+          eexists. split; [reflexivity|]. split; [exact Hwf2|]. split; [reflexivity|]. split; [reflexivity|].
+          intros x' y' p'. unfold set_sel, set_subs. simpl t_sel. simpl t_subs. simpl t_bx. simpl t_by.
+          fold v. rewrite Hcnt2, Hcnt.
+          destruct (inb (S k) t x' y') eqn:Hin'.
+          * destruct (Z.eq_dec p' p) as [-> | Hne].
+            -- rewrite loc_upd_same by assumption. rewrite select_bit by lia.
+               rewrite loc_bit by exact Hp. fold v.
+               destruct (Z.eqb_spec (subi (S k) x' y') i) as [Ei | Ni].
+               ++ rewrite Ei, Hbit, Z.eqb_refl. simpl orb. rewrite Hc'cnt, Z.eqb_refl. simpl b2n.
+                  destruct (core_eqb (x', y', p) (x, y, p)) eqn:He; [reflexivity|].
+                  assert (Hi0 : inb k c0 x' y' = true).
+                  { unfold inb. rewrite Hc0x, Hc0y. rewrite <- Ei. apply child_blk_of; assumption. }
+                  destruct (Hall x' y' Hi0) as [H1 | [-> ->]].
+                  ** rewrite Hc0cnt in H1. rewrite H1. reflexivity.
+                  ** rewrite core_eqb_refl in He. discriminate.
+               ++ replace (i =? subi (S k) x' y') with false by (symmetry; apply Z.eqb_neq; lia).
+                  rewrite orb_false_r.
+                  destruct (core_eqb (x', y', p) (x, y, p)) eqn:He; [|reflexivity].
+                  apply core_eqb_eq in He. inversion He. subst x' y'. contradiction.
+            -- rewrite loc_upd_other by lia. rewrite core_eqb_p by exact Hne.
+               destruct (Z.eqb_spec (subi (S k) x' y') i) as [Ei | Ni]; [|reflexivity].
+               rewrite Hc'cnt. replace (p' =? p) with false by (symmetry; apply Z.eqb_neq; exact Hne).
+               rewrite Hc0cnt, Ei. reflexivity.
+          * destruct (core_eqb (x', y', p') (x, y, p)) eqn:He; [|reflexivity].
+            apply core_eqb_eq in He. inversion He. subst x' y'. congruence.
+        + (* the child took the core *)
+          pose proof (Hf eq_refl) as Hc'cnt.
+          destruct (node_upd k t (t_sel t) i c' Hn Hwf Hi Hwc' Hcx' Hcy' Hl Hs) as [Hwf2 Hcnt2].
+          eexists. split; [reflexivity|]. split; [exact Hwf2|]. split; [reflexivity|]. split; [reflexivity|].
+          intros x' y' p'. unfold set_subs. rewrite Hcnt2, Hcnt.
+          destruct (inb (S k) t x' y') eqn:Hin'.
+          * destruct (Z.eqb_spec (subi (S k) x' y') i) as [Ei | Ni].
+            -- rewrite Hc'cnt, Hc0cnt, Ei.
+               destruct (core_eqb (x', y', p') (x, y, p)) eqn:He; [|reflexivity].
+               apply core_eqb_eq in He. inversion He. subst x' y' p'.
+               rewrite loc_bit by exact Hp. fold i v. rewrite Hbit. reflexivity.
+            -- destruct (core_eqb (x', y', p') (x, y, p)) eqn:He; [|reflexivity].
+               apply core_eqb_eq in He. inversion He. subst x' y'. contradiction.
+          * destruct (core_eqb (x', y', p') (x, y, p)) eqn:He; [|reflexivity].
+            apply core_eqb_eq in He. inversion He. subst x' y'. congruence. }
+    destruct Hmid as [t2 [Hmid [Hwf2 [Hbx2 [Hby2 Hadd]]]]].
+    unfold set_sel, set_subs in Hmid |- *. simpl t_sel in Hmid |- *. simpl t_subs in Hmid |- *.
+    simpl t_bx in Hmid |- *. simpl t_by in Hmid |- *.
+    fold v in Hmid |- *.
+    rewrite Hmid. simpl bind.
+    destruct (finish_after_add (S k) t t2 x y p Hn Hwf2 Hbx2 Hby2 Hle Hadd Hp) as [t' [full [Hf Hpost]]].
+    exists t', full. split; [f_equal; exact Hf | exact Hpost].
+Qed.
+
+(* ------------------------------------------------------------------------------------------ *)
+(* compress_flood_fill_regions: exactness                                                       *)
+(* ------------------------------------------------------------------------------------------ *)
+Definition root_ok (t : tree 3) : Prop := wf 3 t /\ le1 3 t /\ t_bx t = 0 /\ t_by t = 0.
+
+Lemma side_3 : side 3 = 64.
+Proof. reflexivity. Qed.
+
+Lemma root_new : root_ok (new_tree 3 0 0).
+Proof.
+  split; [|split; [|split; reflexivity]].
+  - apply wf_new. unfold base_ok. rewrite side_3. simpl. lia.
+  - intros x y p. rewrite cnt_new. lia.
+Qed.
+
+Definition in_spaceb (c : core) : bool :=
+  let '(x, y, p) := c in blk 0 0 256 x y && (0 <=? p) && (p <? 18).
+
+Lemma in_spaceb_spec : forall c, in_spaceb c = true <-> in_space c.
+Proof.
+  intros [[x y] p]. unfold in_spaceb, in_space, blk.
+  rewrite !andb_true_iff, !Z.leb_le, !Z.ltb_lt. lia.
+Qed.
+
+Lemma add_core_root : forall t x y p, root_ok t -> in_space (x, y, p) ->
+  exists t1, add_core 3 t x y p = Ok (t1, false) /\ root_ok t1 /\ Add1 3 t t1 x y p.
+Proof.
+  intros t x y p [Hwf [Hle [Hbx Hby]]] Hsp.
+  assert (Hin : inb 3 t x y = true).
+  { unfold inb. rewrite Hbx, Hby, side_3. apply in_spaceb_spec in Hsp. unfold in_spaceb in Hsp.
+    apply andb_true_iff in Hsp. destruct Hsp as [Hsp _]. apply andb_true_iff in Hsp. apply Hsp. }
+  assert (Hp : 0 <= p < 18) by (unfold in_space in Hsp; lia).
+  destruct (add_core_spec 3 (le_n 3) t x y p Hwf Hle Hin Hp) as [t1 [full [Hadd Hpost]]].
+  pose proof (add_post_le1 _ _ _ _ _ _ _ Hle Hpost) as Hle1.
+  destruct Hpost as [Hwf1 [Hbx1 [Hby1 [Hf Ht]]]].
+  destruct full.
+  - destruct (Ht eq_refl) as [Hne _]. contradiction.
+  - exists t1. split; [exact Hadd|]. split; [|apply Hf; reflexivity].
+    split; [exact Hwf1|]. split; [exact Hle1|]. split; congruence.
+Qed.
+
+Lemma add_core_root_outside : forall t x y p, root_ok t -> ~ in_space (x, y, p) ->
+  add_core 3 t x y p = Failed 0.
+Proof.
+  intros t x y p [Hwf [Hle [Hbx Hby]]] Hsp.
+  rewrite add_core_S_eq. cbv zeta. rewrite out_of_range_blk by lia.
+  rewrite Hbx, Hby, side_3.
+  change (blk 0 0 (4 * 64) x y && (0 <=? p) && (p <? 18)) with (in_spaceb (x, y, p)).
+  destruct (in_spaceb (x, y, p)) eqn:E; [|reflexivity].
+  apply in_spaceb_spec in E. contradiction.
+Qed.
+
+Lemma add_all_cons : forall n (t : tree n) x y p r,
+  add_all n t ((x, y, p) :: r) = bind (add_core n t x y p) (fun tb => add_all n (fst tb) r).
+Proof. reflexivity. Qed.
+
+Lemma add_all_spec : forall cs t, root_ok t -> Forall in_space cs ->
+  exists t', add_all 3 t cs = Ok t' /\ root_ok t' /\
+    forall x y p, cnt 3 t' x y p = if requested cs x y p then 1%nat else cnt 3 t x y p.
+Proof.
+  induction cs as [|[[x0 y0] p0] cs IH]; intros t Hroot Hall.
+  - exists t. split; [reflexivity|]. split; [exact Hroot|]. reflexivity.
+  - inversion Hall as [|? ? Hc Hcs]; subst.
+    destruct (add_core_root t x0 y0 p0 Hroot Hc) as [t1 [Hadd [Hroot1 Hadd1]]].
+    destruct (IH t1 Hroot1 Hcs) as [t' [Hall' [Hroot' Hcnt]]].
+    exists t'. rewrite add_all_cons, Hadd. simpl bind. simpl fst. split; [exact Hall'|]. split; [exact Hroot'|].
+    intros x y p. rewrite Hcnt. unfold requested. simpl existsb. fold (requested cs x y p).
+    destruct (requested cs x y p); [rewrite orb_true_r; reflexivity|].
+    rewrite orb_false_r. apply Hadd1.
+Qed.
+
+Lemma times_selected_sorted : forall l x y p, times_selected (py_sorted l) x y p = times_selected l x y p.
+Proof. intros. rewrite !times_selected_cnt_if. apply cnt_if_py_sorted. Qed.
+
+Theorem compress_exact : forall cs, Forall in_space cs ->
+  exists out, compress cs = Ok out /\
+    forall x y p, times_selected out x y p = if requested cs x y p then 1%nat else 0%nat.
+Proof.
+  intros cs Hall. destruct (add_all_spec cs _ root_new Hall) as [t' [Hadd [_ Hcnt]]].
+  exists (py_sorted (regions 3 t')). unfold compress. rewrite Hadd. split; [reflexivity|].
+  intros x y p. rewrite times_selected_sorted. fold (cnt 3 t' x y p). rewrite Hcnt, cnt_new. reflexivity.
+Qed.
+
+(* the error branch: a core outside the space makes the call raise ValueError *)
+Lemma add_all_outside : forall cs t, root_ok t -> Exists (fun c => ~ in_space c) cs ->
+  add_all 3 t cs = Failed 0.
+Proof.
+  induction cs as [|[[x0 y0] p0] cs IH]; intros t Hroot Hex; [inversion Hex|].
+  rewrite add_all_cons. destruct (in_spaceb (x0, y0, p0)) eqn:E.
+  - apply in_spaceb_spec in E.
+    destruct (add_core_root t x0 y0 p0 Hroot E) as [t1 [Hadd [Hroot1 _]]].
+    rewrite Hadd. simpl bind. simpl fst. apply IH; [exact Hroot1|].
+    inversion Hex as [? ? Hbad | ? ? Hrest]; subst; [contradiction | exact Hrest].
+  - rewrite add_core_root_outside; [reflexivity | exact Hroot |].
+    intro H. apply in_spaceb_spec in H. congruence.
+Qed.
+
+Theorem compress_outside : forall cs, Exists (fun c => ~ in_space c) cs -> compress cs = Failed 0.
+Proof.
+  intros cs Hex. unfold compress. rewrite (add_all_outside cs _ root_new Hex). reflexivity.
+Qed.
+
+Lemma in_space_all_or_not : forall cs, Forall in_space cs \/ Exists (fun c => ~ in_space c) cs.
+Proof.
+  induction cs as [|c cs IH]; [left; constructor|].
+  destruct (in_spaceb c) eqn:E.
+  - apply in_spaceb_spec in E. destruct IH as [IH | IH]; [left; constructor; assumption | right; apply Exists_cons_tl; exact IH].
+  - right. apply Exists_cons_hd. intro H. apply in_spaceb_spec in H. congruence.
+Qed.
+
+Theorem compress_ok_iff : forall cs, (exists out, compress cs = Ok out) <-> Forall in_space cs.
+Proof.
+  intros cs. split.
+  - intros [out Hout]. destruct (in_space_all_or_not cs) as [H | H]; [exact H|].
+    rewrite (compress_outside cs H) in Hout. discriminate.
+  - intros H. destruct (compress_exact cs H) as [out [Hout _]]. exists out. exact Hout.
+Qed.
